@@ -69,3 +69,18 @@ Definition show_list {A} (f : A -> string) (l : list A) : string :=
                | [x] => f x
                | x :: l => f x ++ "," ++ go l
                end%string) l.
+
+(** ASCII text constants as byte lists *)
+Definition s2b (s : string) : list Z :=
+  List.map (fun a => Z.of_N (N_of_ascii a)) (list_ascii_of_string s).
+
+Fixpoint is_prefix (p l : list Z) : bool :=
+  match p, l with
+  | [], _ => true
+  | x :: p, y :: l => (x =? y) && is_prefix p l
+  | _, [] => false
+  end.
+
+(* Python:  p in l  for str *)
+Fixpoint substr (p l : list Z) : bool :=
+  is_prefix p l || match l with [] => false | _ :: l' => substr p l' end.
